@@ -20,7 +20,7 @@ ASSUMPTIONS = [
 ]
 EXHAUSTIVE_WHEN_PARTS = True
 
-FORMS = ["numeric", "backward_label", "forward_label", "backward_label_expr", "backward_label_macro", "numeric_bank0", "backward_label_after_incbin", "symbol_target_assigned_later", "qualified_target"]
+FORMS = ["numeric", "backward_label", "forward_label", "backward_label_expr", "backward_label_macro", "numeric_bank0", "backward_label_after_incbin", "symbol_target_assigned_later", "qualified_target", "label_in_macro_applied_twice"]
 RELOCS = ["none", "reloc_rom", "reloc_rom_near", "reloc_ram", "org_ram", "reloc_ram_near_storage", "resume_after_reloc", "resume_after_reloc_gap"]
 
 
@@ -138,6 +138,16 @@ def build(rom: str, m: str, d: int, place: int, form: str, reloc: str):
         if n < 0:
             return None
         src = head + f".macro cdown(loop, exit) {{\n{m} exit\n}}\n" + "loop:\n" + filler(n) + "retry:\ncdown(retry, loop)\n"
+        return src, adv(rom, run, n), run, adv(rom, stored, n)
+    if form == "label_in_macro_applied_twice":
+        # a macro without parameters holds the loop (its label inside a conditional block, or directly in the body) and is applied twice:
+        # every application branches to its own label
+        n = -d - 2
+        if n < 0:
+            return None
+        inner = "wait:\n" + filler(n) + f"{m} wait\n"
+        body = [".if 1 {\n" + inner + "}\n", ".if 0 {\nnop\n} else {\n" + inner + "}\n", inner][d % 3]
+        src = head + ".macro poll() {\n" + body + "}\npoll()\npoll()\n"
         return src, adv(rom, run, n), run, adv(rom, stored, n)
     if form == "backward_label_after_incbin":
         # a binary file stands between the target and the branch (same block): it counts like any other bytes
